@@ -328,3 +328,35 @@ func VerifC15_TwoRefsRestore() {
 	verifrt.Assert(c15SameUserConfig(c15Stored(c, "w1"), o1), "C15.two.restore1")
 	verifrt.Assert(c15SameUserConfig(c15Stored(c, "w2"), o2), "C15.two.restore2")
 }
+
+// VerifC05_CustomFinaliseRestoresEveryRef: with two referenced resources, each either still present (patched by a
+// step, snapshot stored) or deleted by the user meanwhile, Finalise restores every one that still exists — a
+// missing resource does not shield the others.
+func VerifC05_CustomFinaliseRestoresEveryRef() {
+	o1 := c15Widget("w1")
+	o2 := c15Widget("w2")
+	r := c15Ctl(c15Ref, c15Ref2)
+	c := c15Client(o1.DeepCopy(), o2.DeepCopy())
+	r.Client = c
+	s, _ := c15Traffic("s1")
+	if !c15Ensure(r, s, "C05.custom.apply") {
+		return
+	}
+	gone := verifrt.IntRange("deleted.ref", 0, 2) // 0 none, 1 the first, 2 the second
+	if gone > 0 {
+		name := "w1"
+		if gone == 2 {
+			name = "w2"
+		}
+		c.ApplyToStore(symclient.Write{Verb: "delete", Kind: "Unstructured:Widget", Obj: c15Stored(c, name)})
+	}
+	_, err := r.Finalise(context.TODO())
+	verifrt.Assert(err == nil, "C05.custom.finalise.noError")
+	if gone != 1 {
+		verifrt.Assert(c15SameUserConfig(c15Stored(c, "w1"), o1), "C05.custom.finalise.restoresFirst")
+	}
+	if gone != 2 {
+		verifrt.Assert(c15SameUserConfig(c15Stored(c, "w2"), o2), "C05.custom.finalise.restoresSecond")
+	}
+	verifrt.Cover("C05.custom.done")
+}
